@@ -651,15 +651,18 @@ pub fn run(args: &Args, prop: &str) {
     rep.set("driver_configurations", json!(CFGS.iter().map(|c| c.tag()).collect::<Vec<_>>()));
     rep.assume("replicas are memory-backed LinearStorageProvider instances (same LinearStorage code as the file backend)");
     rep.assume("the transports are mirrored in-process: one-shot sessions as aranya-tcp-syncer/testing::dsl drive them, full sessions as run_full_session drives them; no bytes are lost or reordered between the two sides");
-    rep.require_nonzero("executions");
-    rep.require_nonzero("commands_delivered");
-    rep.require_nonzero("multi_response_sessions");
-    rep.require_nonzero("responses_cut_at_response_max");
-    rep.require_nonzero("sessions_with_saturated_sample");
-    rep.require_nonzero("converged_pairs");
-    if prop == "C17" {
-        rep.require_nonzero("buffer_probes");
-        rep.require_nonzero("buffer_too_small_seen");
+    // vacuity guards apply to clean runs only: a run that found violations is not vacuous
+    if rep.violations().iter().all(|v| v.key.ends_with(BUDGET_CAUSE)) {
+        rep.require_nonzero("executions");
+        rep.require_nonzero("commands_delivered");
+        rep.require_nonzero("multi_response_sessions");
+        rep.require_nonzero("responses_cut_at_response_max");
+        rep.require_nonzero("sessions_with_saturated_sample");
+        rep.require_nonzero("converged_pairs");
+        if prop == "C17" {
+            rep.require_nonzero("buffer_probes");
+            rep.require_nonzero("buffer_too_small_seen");
+        }
     }
     rep.finish()
 }
